@@ -1,5 +1,6 @@
 import TextxVerif.Wire
 import TextxVerif.RrelSyntax
+import TextxVerif.RrelCore
 /-! Driver for the RREL printer / parser model (C12).  Text travels as arrays of
 code points.  `word` / `digit`: the non-ASCII code points of the request that
 Python's `re` classifies as `\w` / `\d` (ASCII is built in).
@@ -11,6 +12,15 @@ ops:
       → {"printed":[cp…],"pinned":[cp…],"wf":bool,"depth":n,"parsed":EXPR|null}
 EXPR = {"flags":[cp…],"seq":SEQ}   SEQ = [PATH…]   PATH = [ELEM…]
 ELEM = ["parent",[cp…]] | ["nav",[cp…],bool,[cp…]|null] | ["br",SEQ] | ["star",SEQ] | ["dots",n]
+
+Both ops take an optional field
+  "ev":{"parent":[p|null…],"name":[s|null…],"conf":[[T…]…],"attrs":[[[attr,[tgt…]]…]…],"extra":[…],
+        "queries":[{"o":n,"ns":[s…]}…],"fuel":n}
+and then also answer
+  "eval":[ANS…]|null   -- `evalExpr` of the expression (the tree / the parsed text) for every query; null: no core
+  "eval2":[ANS…]|null  -- the same for the expression re-parsed from the printed form
+  "core":n             -- number of guarded nodes of the core
+  ANS = {"obj":n} | {"proxy":[n…]} | "none" | "postponed" | "fuel"
 -/
 open Lean Wire RrelSyntax
 
@@ -61,10 +71,85 @@ end
 
 def encExpr (e : Expr) : Json := Json.mkObj [("flags", ofStr e.flags), ("seq", encSeq e.seq)]
 
+/-! ### evaluation (`evalExpr`: `toCore` + `Rrel.find` on a model sent with the request) -/
+
+def optNat (j : Json) : Option (Option Nat) :=
+  if j.isNull then some none else (asNat? j).map some
+
+def optStr (j : Json) : Option (Option String) :=
+  if j.isNull then some none else (asStr? j).map some
+
+def parseAttrs (j : Json) : Option (List (String × List Nat)) := do
+  (← asArr? j).toList.mapM fun e => do
+    let xs ← asArr? e
+    pure (← asStr? (← xs[0]?), ← asNatList? (← xs[1]?))
+
+def mkHeap (par : Array (Option Nat)) (nm : Array (Option String)) (cf : Array (List String))
+    (ats : Array (List (String × List Nat))) (extra : List Nat) : Rrel.Heap where
+  parent o := (par[o]?).join
+  name o := (nm[o]?).join
+  conf o T := match cf[o]? with | some l => l.contains T | none => false
+  attr o a :=
+    match ats[o]? with
+    | none => some []
+    | some l => match l.find? (·.1 == a) with
+      | some (_, ts) => some ts
+      | none => some []
+  extra := extra
+  depth := par.size
+
+structure EvReq where
+  H : Rrel.Heap
+  queries : List (Nat × List String)
+  fuel : Nat
+
+def parseEv (j : Json) : Option EvReq := do
+  let par ← (← getArr? j "parent").mapM optNat
+  let nm ← (← getArr? j "name").mapM optStr
+  let cf ← (← getArr? j "conf").mapM (fun x => (fromJson? x : Except String (List String)).toOption)
+  let ats ← (← getArr? j "attrs").mapM parseAttrs
+  let extra ← getNatList? j "extra"
+  guard (par.size == nm.size && nm.size == cf.size && cf.size == ats.size)
+  let qs ← (← getArr? j "queries").toList.mapM fun q => do
+    let o ← getNat? q "o"
+    guard (o < par.size)
+    pure (o, ← getStrList? q "ns")
+  pure ⟨mkHeap par nm cf ats extra, qs, ← getNat? j "fuel"⟩
+
+def ansJson : Answer → Json
+  | .obj o => Json.mkObj [("obj", toJson o)]
+  | .proxy p => Json.mkObj [("proxy", toJson p)]
+  | .unknown => "none"
+  | .postponed => "postponed"
+  | .fuel => "fuel"
+
+def evalAll (ev : EvReq) (e : Expr) : Option (List Answer) :=
+  ev.queries.mapM fun (o, ns) => evalExpr ev.H ev.fuel e o ns none
+
+def evalJson : Option (List Answer) → Json
+  | some l => Json.arr (l.map ansJson).toArray
+  | none => Json.null
+
+/-- the fields `eval`, `eval2`, `core` for the expression `e` and the re-parsed `e'` -/
+def evFields (ev : Option EvReq) (e : Expr) (e' : Option Expr) : List (String × Json) :=
+  match ev with
+  | none => []
+  | some ev =>
+    let r := evalAll ev e
+    let r2 : Json := match e' with
+      | none => Json.null
+      | some e' =>
+        if toCore e' == toCore e && e'.flags == e.flags then evalJson r else evalJson (evalAll ev e')
+    [("eval", evalJson r), ("eval2", r2),
+     ("core", toJson (((toCore e).getD []).flatMap Rrel.E.ids).length)]
+
 def handle (j : Json) : Json :=
   match getNatList? j "word", getNatList? j "digit" with
   | some w, some d =>
     let cc := mkCC w d
+    let evj := getObj? j "ev"
+    let ev := evj.bind parseEv
+    if evj.isSome && ev.isNone then badOp else
     match getStr? j "op" with
     | some "parse" =>
       match getNatList? j "s" with
@@ -72,17 +157,19 @@ def handle (j : Json) : Json :=
         match parse cc (toStr s) with
         | some e =>
           let p := printExpr e
-          Json.mkObj [("ok", encExpr e), ("printed", ofStr p),
-            ("reparsed", match parse cc p with | some e' => encExpr e' | none => Json.null)]
+          let e' := parse cc p
+          Json.mkObj ([("ok", encExpr e), ("printed", ofStr p),
+            ("reparsed", match e' with | some e' => encExpr e' | none => Json.null)] ++ evFields ev e e')
         | none => Json.mkObj [("fail", true)]
       | none => badOp
     | some "roundtrip" =>
       match (getObj? j "tree").bind decExpr with
       | some e =>
         let p := printExpr e
-        Json.mkObj [("printed", ofStr p), ("pinned", ofStr (printExprPinned e)),
+        let e' := parse cc p
+        Json.mkObj ([("printed", ofStr p), ("pinned", ofStr (printExprPinned e)),
           ("wf", toJson (wfExpr cc e)), ("depth", toJson (depthPaths e.seq)),
-          ("parsed", match parse cc p with | some e' => encExpr e' | none => Json.null)]
+          ("parsed", match e' with | some e' => encExpr e' | none => Json.null)] ++ evFields ev e e')
       | none => badOp
     | _ => badOp
   | _, _ => badOp
